@@ -621,7 +621,7 @@ func main() {
 		os.Exit(2)
 	}
 	err := w.Close(emit.Meta{Property: "C10", Tier: cfg.Tier, Seed: cfg.Seed, Exhaustive: true,
-		Rule:  "Exhaustive enumeration, not sampled: every flow variant (authorize with a registered redirect_uri in every response_type {code, id_token, id_token token} x response_mode {none, query, fragment, form_post} and with an unregistered redirect_uri; callback code / id_token / id_token token, each in every response_mode; token grants code, refresh, client_credentials, jwt-bearer, token-exchange, device; userinfo, introspect, revoke access/refresh incl. JWT access tokens, device authorization, end session, keys, discovery, ready) x both routers x {SStd: refstore as it is; SMax: every optional storage interface implemented (CanTerminateSessionFromRequest, CanGetPrivateClaimsFromRequest, TokenExchangeTokensVerifierStorage, JWTProfileTokenStorage in addition); SMin: only the grant storages, no CanSetUserinfoFromRequest; SKeep: interfaces of SStd, but the failing call has done its work - its results and side effects come back together with the error} x {cold: fresh provider instance; warm: the same instance has served the whole flow once, fault free, before} x {no fault; k-th storage call fails for k = 1..calls of the fault-free run; every call of method m fails for each m of that run} x the VALUE of the failure: plain error, context.DeadlineExceeded, context.Canceled, *oidc.Error of EVERY type (all exported constructors of pkg/oidc/error.go: server_error, invalid_request, invalid_client, access_denied, invalid_scope, invalid_grant, unauthorized_client, unsupported_grant_type, interaction_required, login_required, request_not_supported, authorization_pending, slow_down, expired_token, invalid_target; a type of the storage's own; the empty type; redirect-disabled invalid_request), op.ErrDuplicateUserCode, op.ErrInvalidRefreshToken, each bare and wrapped with %w; Storage.RevokeToken, whose signature returns *oidc.Error, returns the chosen *oidc.Error itself (46 values: 27 core values for the k-th-call plans of every flow variant, 5 of them for the method plans, 3 on warm providers; quick tier: the query / fragment response modes and the non-code authorize variants run the 3 warm values + plain method plans (form_post runs all core values), SMax / SMin / SKeep run cold with the 3 warm values + plain method plans; thorough: every variant and storage like SStd, cold and warm, plain-error method plans on warm providers, and the 19 remaining wrapped values on the first variant of each flow). Fresh store and provider per run, fault-free preparation through the fixture, then ResetJournal + fault plan + the request under test, every request under a 10 s time-out. Observed: status class, OAuth error, journal, number of WriteHeader calls / documents (JSON values, HTML pages), credential kinds anywhere in status / headers / Location / body incl. the form controls of a 200 HTML page (form_post). The seed only varies incidental request values (state, nonce, verifier, user). Non-trivial = a fault plan is set (path != 0); distinct = distinct (flow, router, storage, warm, plan).",
+		Rule:  "Exhaustive enumeration, not sampled: every flow variant (authorize with a registered redirect_uri in every response_type {code, id_token, id_token token} x response_mode {none, query, fragment, form_post} and with an unregistered redirect_uri; callback code / id_token / id_token token, each in every response_mode; token grants code, refresh, client_credentials, jwt-bearer, token-exchange, device; userinfo, introspect, revoke access/refresh incl. JWT access tokens, device authorization, end session in all 16 combinations of id_token_hint / client_id / post_logout_redirect_uri / state, keys, discovery, ready) x both routers x {SStd: refstore as it is; SMax: every optional storage interface implemented (CanTerminateSessionFromRequest, CanGetPrivateClaimsFromRequest, TokenExchangeTokensVerifierStorage, JWTProfileTokenStorage in addition); SMin: only the grant storages, no CanSetUserinfoFromRequest; SKeep: interfaces of SStd, but the failing call has done its work - its results and side effects come back together with the error} x {cold: fresh provider instance; warm: the same instance has served the whole flow once, fault free, before} x {no fault; k-th storage call fails for k = 1..calls of the fault-free run; every call of method m fails for each m of that run} x the VALUE of the failure: plain error, context.DeadlineExceeded, context.Canceled, *oidc.Error of EVERY type (all exported constructors of pkg/oidc/error.go: server_error, invalid_request, invalid_client, access_denied, invalid_scope, invalid_grant, unauthorized_client, unsupported_grant_type, interaction_required, login_required, request_not_supported, authorization_pending, slow_down, expired_token, invalid_target; a type of the storage's own; the empty type; redirect-disabled invalid_request), op.ErrDuplicateUserCode, op.ErrInvalidRefreshToken, each bare and wrapped with %w; Storage.RevokeToken, whose signature returns *oidc.Error, returns the chosen *oidc.Error itself (46 values: 27 core values for the k-th-call plans of every flow variant, 5 of them for the method plans, 3 on warm providers; quick tier: the query / fragment response modes and the non-code authorize variants run the 3 warm values + plain method plans (form_post runs all core values), SMax / SMin / SKeep run cold with the 3 warm values + plain method plans; thorough: every variant and storage like SStd, cold and warm, plain-error method plans on warm providers, and the 19 remaining wrapped values on the first variant of each flow). Fresh store and provider per run, fault-free preparation through the fixture, then ResetJournal + fault plan + the request under test, every request under a 10 s time-out. Observed: status class, OAuth error, journal, number of WriteHeader calls / documents (JSON values, HTML pages), credential kinds anywhere in status / headers / Location / body incl. the form controls of a 200 HTML page (form_post). The seed only varies incidental request values (state, nonce, verifier, user). Non-trivial = a fault plan is set (path != 0); distinct = distinct (flow, router, storage, warm, plan).",
 		Extra: map[string]any{"runs": runs}})
 	if err != nil {
 		fmt.Fprintln(os.Stderr, err)
